@@ -31,4 +31,6 @@ def run(prop, tier, seed):
 
 
 def replay(prop, path):
-    return R.do_replay(prop, path)
+    from . import replaycmd
+
+    return replaycmd.replay(prop, path)
